@@ -100,10 +100,19 @@ func H_C15_symmetric(n1, n2 int) {
 
 // H_C15_entry: raw-string / parse-and-compare entry points agree with parsing
 // each URI separately, including the parsed URIs they hand back.
-func H_C15_entry(n1, n2 int) {
+func H_C15_entry(n1, n2 int) { c15entry(n1, n2, false) }
+
+// H_C15_entry_reuse: the same with hand-back structures that still hold the
+// URIs of an earlier comparison (every component present).
+func H_C15_entry_reuse(n1, n2 int) { c15entry(n1, n2, true) }
+
+func c15entry(n1, n2 int, reuse bool) {
 	b1 := vURIBuf(0, n1)
 	b2 := vURIBuf(0, n2)
 	var u1, u2, r1, r2 PsipURI
+	if reuse {
+		URIParseCmp([]byte("sips:alice:pw@h.example:5070;a=b;lr?x=y"), []byte("sip:bob:q@[::1]:99;ttl=1?h=v"), 0, &r1, &r2)
+	}
 	e1, _ := ParseURI(b1, &u1)
 	e2, _ := ParseURI(b2, &u2)
 	f := URICmpFlags(vU8() & 63)
